@@ -524,6 +524,7 @@ package router
 //@   ensures [C13:returns-only-when-starved] action == gnet.None ==> (gcc.buffer == nil ? inb == 0 : inb < len(gcc.buffer) - gcc.readN)
 //@   callsite Write?: [C13:over-limit-answer-is-one-frame] len(arg1) >= 14 && len(arg1) - 2 <= 65535 && BE16(arg1, 0) == uint16(len(arg1) - 2)
 //@   loop 1:
+//@     modifies cc.readN, cc.buffer, cc.readingHdr, cc.err, pkgheaps(dnsmsg), bytes()
 //@     invariant gcc == cc && cc != nil && cc.idleTimer != nil && ccInv(cc) && inb >= 0
 //@     decreases inb
 
@@ -531,7 +532,11 @@ package router
 // only while the goroutine still owns it.
 //@ closure gnetServer.OnTraffic$1
 //@   props C20 C13 C03
-//@   requires e != nil && routerReady(e.r) && e.logger != nil && c != nil && cc != nil && m != nil && wfMsg(m) && !attr(released, m)
+//@   requires e != nil && e.logger != nil
+//@   requires routerReady(e.r)
+//@   requires c != nil && cc != nil
+//@   requires m != nil && wfMsg(m)
+//@   requires [C20:query-owned-by-the-goroutine] !attr(released, m)
 //@   ghost nAW int = 0
 //@   oncall AsyncWrite: nAW = nAW + 1
 //@   modifies *
